@@ -68,6 +68,7 @@ class UnitSpec:
         self.files = []
         self.floor = 0
         self.kind = "bin"
+        self.extconsts = []         # (path text, type, value): associated consts of external types (R10)
 
 
 def parse_vspec(path):
@@ -95,6 +96,10 @@ def parse_vspec(path):
         elif kw == "feature": u.features.append(rest)
         elif kw == "prelude": u.prelude = rest
         elif kw == "floor": u.floor = int(rest)
+        elif kw == "extconst":
+            a = rest.split()
+            # extconst <path as written in the code> <type> <value> [<path resolvable from the prelude module>]
+            u.extconsts.append((a[0], a[1], a[2], a[3] if len(a) > 3 else a[0]))
         elif kw == "file":
             cur_file = FileSpec(rest); u.files.append(cur_file); cur_item = cur_fn = None; raw_target = None
         elif kw == "import":
@@ -147,7 +152,7 @@ def parse_vspec(path):
             raw_target = body
         elif kw == "hint":
             body = []
-            if rest.strip() in ("tail", "end"):
+            if rest.strip() in ("tail", "end", "result"):
                 cur_fn.hints.append((rest.strip(), "", 1, body))
             else:
                 m = re.match(r"(before|after)\s+(\"(?:[^\"\\]|\\.)*\")(\s+#(\d+))?$", rest)
@@ -232,6 +237,13 @@ def split_sections(raw):
 
 # ------------------------------------------------------------------ generation
 
+EXTCONSTS = []
+
+
+def extconst_name(path):
+    return "vx_c_" + re.sub(r"[^A-Za-z0-9]+", "_", path)
+
+
 def process_fn(toks, it, fs: FnSpec, qual, ed: Edits, log, unit_in_trait_impl):
     """register edits for one function item `it` (an Item of kind fn)"""
     src = ed.src
@@ -291,6 +303,18 @@ def process_fn(toks, it, fs: FnSpec, qual, ed: Edits, log, unit_in_trait_impl):
                 ed.insert(toks[c.body_last].end, " }", prio=-9)
             log["rewrites"].append({"rule": "RC", "fn": qual, "before": old, "after": head,
                                     "note": "closure parameter types / named result / contract added; body kept verbatim"})
+    # R10 (automatic): associated constants of external types -> generated const fn with the value as contract
+    for cpath, cty, cval, _real in EXTCONSTS:
+        occ = find_subseq(toks, lo, hi, cpath)
+        for a, b in occ:
+            pv = a - 1
+            while pv >= lo and toks[pv].kind in ("ws", "comment"):
+                pv -= 1
+            if toks[pv].kind == "punct" and toks[pv].text == "::":
+                continue  # part of a longer path
+            ed.replace(toks[a].pos, toks[b].end, "crate::vx_prelude::" + extconst_name(cpath) + "()")
+        if occ:
+            log["rewrites"].append({"rule": "R10", "fn": qual, "before": cpath, "after": extconst_name(cpath) + "()", "count": len(occ)})
     # R3 (automatic): closure parameters that are patterns / `_`
     cl_all = find_closures(toks, lo, hi)
     for ci, c in enumerate(cl_all, 1):
@@ -374,7 +398,8 @@ def process_fn(toks, it, fs: FnSpec, qual, ed: Edits, log, unit_in_trait_impl):
         sg_idx = [k for k in range(lo, hi) if toks[k].kind not in ("ws", "comment")]
         for ii in range(len(sg_idx) - 6):
             seq = [toks[sg_idx[ii + d]].text for d in range(7)]
-            if seq == [".", "iter", "(", ")", ".", "any", "("]:
+            if seq in ([".", "iter", "(", ")", ".", "any", "("], [".", "iter", "(", ")", ".", "find", "("]):
+                helper12 = "vx_any" if seq[5] == "any" else "vx_find"
                 # receiver: ident (. ident)* ending right before sg_idx[ii]
                 jj = ii - 1
                 if jj < 0 or toks[sg_idx[jj]].kind != "ident":
@@ -382,7 +407,7 @@ def process_fn(toks, it, fs: FnSpec, qual, ed: Edits, log, unit_in_trait_impl):
                 while jj - 2 >= 0 and toks[sg_idx[jj - 1]].text == "." and toks[sg_idx[jj - 2]].kind == "ident":
                     jj -= 2
                 recv = src[toks[sg_idx[jj]].pos:toks[sg_idx[ii - 1]].end]
-                ed.replace(toks[sg_idx[jj]].pos, toks[sg_idx[ii + 6]].end, f"vx_any({recv}.as_slice(), ")
+                ed.replace(toks[sg_idx[jj]].pos, toks[sg_idx[ii + 6]].end, f"{helper12}({recv}.as_slice(), ")
                 cnt += 1
         # X.into_iter().filter(c).collect() -> vx_filter_collect(X, c)
         for ii in range(len(sg_idx) - 6):
@@ -406,6 +431,28 @@ def process_fn(toks, it, fs: FnSpec, qual, ed: Edits, log, unit_in_trait_impl):
                     raise LostAnchor(f"{qual}: R12: .filter(..) not followed by .collect()")
                 helper = fs.r12map.get(recv.replace(" ", ""), "vx_filter_collect")
                 ed.replace(toks[sg_idx[jj]].pos, toks[open_paren].end, f"{helper}({recv}, ")
+                ed.replace(toks[tail[0]].pos, toks[tail[3]].end, "")
+                cnt += 1
+        # X.iter().take_while(c).collect() -> vx_take_while_collect(X.as_slice(), c)
+        for ii in range(len(sg_idx) - 6):
+            seq = [toks[sg_idx[ii + d]].text for d in range(7)]
+            if seq == [".", "iter", "(", ")", ".", "take_while", "("]:
+                jj = ii - 1
+                if jj < 0 or toks[sg_idx[jj]].kind != "ident":
+                    raise LostAnchor(f"{qual}: R12: unsupported receiver before .iter().take_while(")
+                while jj - 2 >= 0 and toks[sg_idx[jj - 1]].text == "." and toks[sg_idx[jj - 2]].kind == "ident":
+                    jj -= 2
+                recv = src[toks[sg_idx[jj]].pos:toks[sg_idx[ii - 1]].end]
+                open_paren = sg_idx[ii + 6]
+                close_paren = match_close(toks, open_paren)
+                tail = []
+                k2 = next_sig(toks, close_paren + 1, hi)
+                while k2 is not None and len(tail) < 4:
+                    tail.append(k2)
+                    k2 = next_sig(toks, k2 + 1, hi)
+                if [toks[x].text for x in tail] != [".", "collect", "(", ")"]:
+                    raise LostAnchor(f"{qual}: R12: .take_while(..) not followed by .collect()")
+                ed.replace(toks[sg_idx[jj]].pos, toks[open_paren].end, f"vx_take_while_collect({recv}.as_slice(), ")
                 ed.replace(toks[tail[0]].pos, toks[tail[3]].end, "")
                 cnt += 1
         if cnt == 0:
@@ -436,6 +483,64 @@ def process_fn(toks, it, fs: FnSpec, qual, ed: Edits, log, unit_in_trait_impl):
         chk0 = norm("\n".join(raw))
         if not (chk0.startswith("proof {") or chk0.startswith("assert") or chk0.startswith("let ghost")):
             raise SystemExit(f"{qual}: hint must be ghost code (proof block, assert, let ghost)")
+        if where == "result":
+            # R14: bind the tail expression to the named result so that ghost code can follow it:
+            #   { stmts; E }  ->  { stmts; let r = E; <ghost>; r }
+            seg_lo = lo
+            k = lo
+            while k < hi:
+                t = toks[k]
+                if t.kind == "punct" and t.text in ("(", "[", "{"):
+                    k = match_close(toks, k)
+                elif t.kind == "punct" and t.text == ";":
+                    seg_lo = k + 1
+                k += 1
+            # skip leading block statements (if/match/while/for/loop/{}) that are followed by more code
+            def block_stmt_end(a):
+                """if toks[a] starts a block-like expression, index of its last token, else None"""
+                t = toks[a]
+                if t.kind == "punct" and t.text == "{":
+                    return match_close(toks, a)
+                if t.kind == "ident" and t.text in ("if", "match", "while", "for", "loop", "unsafe"):
+                    j = a + 1
+                    while j < hi:
+                        tj = toks[j]
+                        if tj.kind == "punct" and tj.text in ("(", "["):
+                            j = match_close(toks, j)
+                        elif tj.kind == "punct" and tj.text == "{":
+                            e = match_close(toks, j)
+                            nx = next_sig(toks, e + 1, hi)
+                            if t.text == "if" and nx is not None and toks[nx].text == "else":
+                                nn = next_sig(toks, nx + 1, hi)
+                                if toks[nn].text == "if":
+                                    j = nn + 1
+                                    continue
+                                return match_close(toks, nn)
+                            return e
+                        j += 1
+                return None
+            first = next_sig(toks, seg_lo, hi)
+            while first is not None:
+                e = block_stmt_end(first)
+                if e is None:
+                    break
+                nx = next_sig(toks, e + 1, hi)
+                if nx is None or toks[nx].text in (".", "?", "as") or (toks[nx].kind == "punct" and toks[nx].text in ("==", "!=", "&&", "||", "+", "-", "*", "/")):
+                    break
+                first = nx
+            last = None
+            for x in range(hi - 1, lo - 1, -1):
+                if toks[x].kind not in ("ws", "comment"):
+                    last = x
+                    break
+            if first is None or last is None or last < first:
+                log["lost_hints"].append({"fn": qual, "anchor": "result"})
+                continue
+            rn = fs.ret if fs.ret != "-" else "r"
+            ed.insert(toks[first].pos, f"let {rn} = ", prio=3)
+            ed.insert(toks[last].end, ";\n" + "\n".join(raw) + f"\n{rn}", prio=-3)
+            log["rewrites"].append({"rule": "R14", "fn": qual, "before": "{ …; E }", "after": "{ …; let r = E; <ghost code>; r }"})
+            continue
         if where == "end":
             # end of a body that finishes with a statement (unit-returning functions)
             ed.insert(toks[it.body_close].pos, "\n" + "\n".join(raw) + "\n", prio=-2)
@@ -674,6 +779,8 @@ def _angle_depth_zero(toks, lo, k):
 def main():
     spec_path, ws, out_map = sys.argv[1:4]
     u = parse_vspec(spec_path)
+    global EXTCONSTS
+    EXTCONSTS = u.extconsts
     log = {"unit": u.unit, "functions": [], "rewrites": [], "lost_hints": [], "files": []}
     try:
         for f in u.files:
@@ -694,6 +801,14 @@ def main():
                 pp = os.path.join(specdir, os.path.basename(frag))
                 name = os.path.splitext(os.path.basename(frag))[0]
                 ptxt += f"pub mod {name} {{\n" + open(pp).read() + f"\n}}\npub use {name}::*;\n"
+            if u.extconsts:
+                ptxt += "pub mod vx_consts {\nuse vstd::prelude::*;\n"
+                for cpath, cty, cval, full in u.extconsts:
+                    ptxt += f"const _: () = assert!({full} == {cval}); // R10: value checked at compile time against the real constant\n"
+                ptxt += "verus! {\n"
+                for cpath, cty, cval, full in u.extconsts:
+                    ptxt += (f"#[verifier::external_body]\npub const fn {extconst_name(cpath)}() -> (r: {cty})\n    ensures r == {cval},\n{{ {full} }}\n")
+                ptxt += "} // verus!\n}\npub use vx_consts::*;\n"
             dst = os.path.join(os.path.dirname(rootp), "vx_prelude.rs")
             open(dst, "w").write(ptxt)
             root += "\n#[allow(unused_imports, dead_code, unused_variables, non_snake_case)]\npub mod vx_prelude;\n"
